@@ -144,8 +144,12 @@ def writer_items(eff: Effects):
                                                       "links_back cycle check"}))
     # setattr-style writers (Scope.copy_from) copy every attribute from another object of the same kind
     for field, allowed in TREE_WRITERS.items():
+        def empties(node):
+            # `x.field = []` / `= None` removes edges only: it cannot close a cycle
+            return isinstance(node, ast.Assign) and (isinstance(node.value, ast.List) and not node.value.elts
+                                                     or isinstance(node.value, ast.Constant) and node.value.value is None)
         writers = {q for q, recv, node, cls in eff.writers_of(field) if not q.startswith("fortls.debug")
-                   and q.startswith(P)}
+                   and q.startswith(P) and not (empties(node) and q not in allowed)}
         extra = sorted(writers - allowed)
         items.append(term.item(f"C20/heap/shape.tree_writers[{field}]", not extra,
                                f"writers of .{field}: {sorted(short(w) for w in writers)} are the reviewed tree builders",
